@@ -73,6 +73,77 @@ pub struct Field {
 pub struct Patch {
     pub pos: u64,
     pub bytes: Vec<u8>,
+    /// further sites substituted together with the first (structured deviations: overrun chains, extreme pairs)
+    pub more: Vec<(u64, Vec<u8>)>,
+}
+
+impl Patch {
+    pub fn one(pos: u64, bytes: Vec<u8>) -> Patch {
+        Patch { pos, bytes, more: vec![] }
+    }
+    pub fn sites(&self) -> Vec<(u64, &Vec<u8>)> {
+        std::iter::once((self.pos, &self.bytes)).chain(self.more.iter().map(|(p, b)| (*p, b))).collect()
+    }
+}
+
+/// Overrun chains: for every box of the file and every suffix of its ancestor path, the 32-bit size fields of all boxes
+/// on that suffix are raised together to huge, mutually consistent values (each still fits in the one above), alone and
+/// together with a huge value in the word where tables keep their entry count.  A single oversized size is caught by
+/// the parent's bound; a chain is what reaches a container that validates its children too late.
+pub fn overrun_chains(bytes: &[u8]) -> Vec<Patch> {
+    fn walk(nodes: &[crate::refmp4::parse::Node], path: &mut Vec<(u64, usize)>, out: &mut Vec<Patch>, n: u64) {
+        for nd in nodes {
+            path.push((nd.start, nd.header));
+            let depth = path.len();
+            for j in 0..depth {
+                if path[j..].iter().any(|(_, h)| *h != 8) {
+                    continue;
+                }
+                let sites: Vec<(u64, Vec<u8>)> = path[j..].iter().enumerate().map(|(i, (start, _))| (*start, (0x7fff_ff00u32 - 0x100 * i as u32).to_be_bytes().to_vec())).collect();
+                for count_at in [None, Some(12u64), Some(16u64)] {
+                    let mut s = sites.clone();
+                    if let Some(c) = count_at {
+                        if nd.start + c + 4 > n || nd.size < (c + 4) as usize || !nd.kids.is_empty() {
+                            continue;
+                        }
+                        s.push((nd.start + c, 0x0fff_ff00u32.to_be_bytes().to_vec()));
+                    }
+                    if s.len() < 2 {
+                        continue; // a single site is an ordinary one-field deviation
+                    }
+                    let (pos, b) = s.remove(0);
+                    out.push(Patch { pos, bytes: b, more: s });
+                }
+            }
+            walk(&nd.kids, path, out, n);
+            path.pop();
+        }
+    }
+    let mut out = vec![];
+    if let Ok(t) = crate::refmp4::parse::tree(bytes, 0) {
+        walk(&t, &mut vec![], &mut out, bytes.len() as u64);
+    }
+    out
+}
+
+/// Extreme pairs: every 64-bit number the parser reads (not a box header) at the top of its range together with every
+/// 32-bit field at the top of its range — the two-field combinations whose sum or product leaves 64 bits.
+pub fn extreme_pairs(bytes: &[u8], fields: &[Field]) -> Vec<Patch> {
+    let mut out = vec![];
+    let is_header = |f: &Field| {
+        let c = &bytes[f.pos as usize + 4..f.pos as usize + 8];
+        c.iter().all(|b| (0x20..0x7f).contains(b) || *b == 0xa9)
+    };
+    for a in fields.iter().filter(|f| f.len == 8 && !is_header(f)) {
+        for av in [u64::MAX - 0xfff, u64::MAX, 1u64 << 63] {
+            for b in fields.iter().filter(|f| f.len == 4 && (f.pos + 4 <= a.pos || f.pos >= a.pos + 8)) {
+                for bv in [0x7fff_ffffu32, 0xffff_ffff, 0x8000_0000] {
+                    out.push(Patch { pos: a.pos, bytes: av.to_be_bytes().to_vec(), more: vec![(b.pos, bv.to_be_bytes().to_vec())] });
+                }
+            }
+        }
+    }
+    out
 }
 
 /// Four-character codes the library dispatches on, plus one it does not know.
@@ -276,6 +347,9 @@ fn apply(buf: &mut [u8], p: &Patch) -> Vec<u8> {
     let a = p.pos as usize;
     let old = buf[a..a + p.bytes.len()].to_vec();
     buf[a..a + p.bytes.len()].copy_from_slice(&p.bytes);
+    for (pos, b) in p.more.iter() {
+        buf[*pos as usize..*pos as usize + b.len()].copy_from_slice(b);
+    }
     old
 }
 
@@ -318,7 +392,15 @@ impl E3Job {
             for f in fields_of(&r.read_log, n, max_bulk) {
                 let cur = &b.bytes[f.pos as usize..(f.pos + f.len as u64) as usize];
                 for m in menu(f.len, cur, n, f.pos) {
-                    units.push((bi, Some(Patch { pos: f.pos, bytes: m })));
+                    units.push((bi, Some(Patch::one(f.pos, m))));
+                }
+            }
+            for c in overrun_chains(&b.bytes) {
+                units.push((bi, Some(c)));
+            }
+            if b.bytes.len() <= 8192 {
+                for c in extreme_pairs(&b.bytes, &fields_of(&r.read_log, n, 64)) {
+                    units.push((bi, Some(c)));
                 }
             }
         }
@@ -327,7 +409,7 @@ impl E3Job {
 
     fn case_json(&self, b: &Baseline, patches: &[&Patch], bytes: &[u8]) -> Value {
         let mut c = json!({"engine": "e3", "baseline": b.name, "mode": if b.init.is_some() { "fragment" } else { "open" },
-            "patches": patches.iter().map(|p| json!([p.pos, hex(&p.bytes)])).collect::<Vec<_>>()});
+            "patches": patches.iter().flat_map(|p| p.sites().into_iter().map(|(pos, b)| json!([pos, hex(b)])).collect::<Vec<_>>()).collect::<Vec<_>>()});
         if bytes.len() <= 8192 {
             c["input_hex"] = json!(hex(bytes));
         }
@@ -409,7 +491,7 @@ impl Job for E3Job {
         let init_r = b.init.as_ref().map(|i| open(i).unwrap());
         let mut buf = b.bytes.clone();
         let n = buf.len() as u64;
-        let pairs = b.pairs && p1.is_some();
+        let pairs = b.pairs && p1.as_ref().map(|p| p.more.is_empty()).unwrap_or(false);
         let mut plist: Vec<&Patch> = vec![];
         if let Some(p) = p1 {
             apply(&mut buf, p);
@@ -437,6 +519,8 @@ impl Job for E3Job {
                         ctx.count("nontrivial:shape_opens", 1);
                     }
                 }
+            } else if p1.as_ref().map(|p| !p.more.is_empty()).unwrap_or(false) {
+                ctx.count(if r.opened { "structured_deviation_still_opens" } else { "structured_deviation_rejected" }, 1);
             } else if r.opened {
                 ctx.count("nontrivial:single_deviation_still_opens", 1);
             } else {
@@ -459,7 +543,7 @@ impl Job for E3Job {
             let cur = buf[f.pos as usize..(f.pos + f.len as u64) as usize].to_vec();
             for m in menu(f.len, &cur, n, f.pos) {
                 if sub >= start_sub {
-                    let p2 = Patch { pos: f.pos, bytes: m };
+                    let p2 = Patch::one(f.pos, m);
                     let old = apply(&mut buf, &p2);
                     ctx.begin_case(unit, sub);
                     let r2 = run_case(&buf, init_r.as_ref(), false, false, false);
@@ -511,7 +595,7 @@ pub fn run_check(prop: &str, tier: Tier, seed: u64, profiles: &[&str]) -> i32 {
             let (bi, p1) = &job.units[*unit as usize];
             let b = &job.baselines[*bi];
             let case = json!({"engine": "e3", "baseline": b.name, "unit": unit, "sub": sub, "profile": profile,
-                "first_patch": p1.as_ref().map(|p| json!([p.pos, hex(&p.bytes)])), "note": "worker process died on this case; replay with `mp4mc e3case`"});
+                "first_patch": p1.as_ref().map(|p| p.sites().into_iter().map(|(pos, b)| json!([pos, hex(b)])).collect::<Vec<_>>()), "note": "worker process died on this case; replay with `mp4mc e3case`"});
             // timeout -> C07; refused allocation (process aborts) -> C08 and C06; any other death (abort, stack overflow) -> C06
             let is_timeout = kind == "timeout";
             let is_alloc = kind.starts_with("allocation_refused");
@@ -559,7 +643,7 @@ pub fn run_check(prop: &str, tier: Tier, seed: u64, profiles: &[&str]) -> i32 {
     ev.set("worker_deaths", json!(deaths_total));
     ev.set("caps_hit", json!(caps));
     ev.set("exhaustive", json!(caps.is_empty()));
-    ev.set("bound", json!("deviations 0 and 1 on every baseline (every field the parser reads during open x its boundary-value menu); deviations = 2 on the baselines marked pairs=true; deviation 0 on every member of the input-shape families (metadata item x data type x payload length x meta form; fragment option tuples x run-length vectors (0..2)^3 in both delivery modes; chunk compositions x size/offset/sync shapes); bounds checked: ops <= 64n+4096 and bytes <= 64n+2^20 (+sample) per call, thread CPU <= 0.5 s per phase, allocation <= 128n+8MiB"));
+    ev.set("bound", json!("deviations 0 and 1 on every baseline (every field the parser reads during open x its boundary-value menu); deviations = 2 on the baselines marked pairs=true; structured multi-field deviations on every baseline: overrun chains (sizes of all boxes on every suffix of every ancestor path raised together, with and without a huge entry count) and extreme pairs (every 64-bit number x every 32-bit field, both at the top of their range); deviation 0 on every member of the input-shape families (metadata item x data type x payload length x meta form; fragment option tuples x run-length vectors (0..2)^3 in both delivery modes; chunk compositions x size/offset/sync shapes); bounds checked: ops <= 64n+4096 and bytes <= 64n+2^20 (+sample) per call, thread CPU <= 0.5 s per phase, allocation <= 128n+8MiB"));
     if samples.is_empty() {
         samples.push(json!("(none)"));
     }
